@@ -426,9 +426,11 @@ def probeAttrs : List Attr :=
    ⟨⟨"", "id"⟩, "i1"⟩, ⟨⟨"urn:ext", "id"⟩, "i2"⟩,
    ⟨⟨"", "to"⟩, "a@example.org"⟩, ⟨⟨"urn:ext", "from"⟩, "b@example.org"⟩, ⟨⟨"", "from"⟩, "c@example.org/r"⟩]
 
-/-- every attribute list of length ≤ 2 over the universe, in order -/
+/-- every attribute list of length ≤ 2 over the universe, in order (two own attributes of one
+name are not well-formed XML and are left out) -/
 def probeAttrLists : List (List Attr) :=
-  [[]] ++ probeAttrs.map (fun a => [a]) ++ probeAttrs.flatMap fun a => probeAttrs.map fun b => [a, b]
+  [[]] ++ probeAttrs.map (fun a => [a]) ++ probeAttrs.flatMap fun a =>
+    (probeAttrs.filter fun b => !(a.name.space == "" && b.name.space == "" && a.name.loc == b.name.loc)).map fun b => [a, b]
 
 structure HdrRow where
   kind : Kind
